@@ -31,9 +31,9 @@ XTAL = {"NaCl": ("NaCl-prim-2", [[2, 0, 0], [0, 1, 0], [0, 0, 1]]), "wz": ("wurt
         "NaClF": ("NaCl-conv-8-interleaved", [[1, 0, 0], [0, 1, 0], [0, 0, 1]], "F")}
 NACNAME = {"NaCl-conv-8-interleaved": "NaCl-prim-2"}
 
-OPS = ["fcA", "fcB", "fcAc", "fcV", "dsD1", "dsD2", "prodF", "prodC", "gen", "sym1", "symsg", "cut", "nacN", "nacW", "nacG", "nacG2",
-       "m0", "m1", "copy", "setF", "qQ", "qQd", "qM", "qB"]
-QUERIES = ("qQ", "qQd", "qM", "qB")
+OPS = ["fcA", "fcB", "fcAc", "fcV", "dsD1", "dsD2", "prodF", "prodC", "gen", "genT", "sym1", "symsg", "cut", "nacN", "nacW", "nacG", "nacG2", "nacE",
+       "m0", "m1", "copy", "setF", "qQ", "qQd", "qM", "qMT", "qB"]
+QUERIES = ("qQ", "qQd", "qM", "qMT", "qB")
 # (root history, depth) per system: searching from non-initial states reaches longer histories at the same cost
 ROOTS = {"quick": {"NaCl": [([], 2), (["fcA"], 3), (["fcB", "nacG"], 2)], "wz": [(["fcB"], 2), (["fcA"], 2)], "NaClF": [(["fcA"], 2)]},
          "thorough": {"NaCl": [([], 3), (["fcA"], 4), (["fcB", "nacG"], 3), (["fcAc", "nacG", "qQ"], 3)], "wz": [([], 2), (["fcB"], 3), (["fcA"], 3)],
@@ -172,7 +172,9 @@ class Run:
         has_forces = ds is not None and "first_atoms" in ds and all("forces" in d for d in ds["first_atoms"])
         out = []
         for op in OPS:
-            if op in ("sym1", "symsg", "cut") + QUERIES and not has_fc:
+            if op in ("sym1", "symsg", "cut", "genT") + QUERIES and not has_fc:
+                continue
+            if op == "nacE" and ph.nac_params is None:
                 continue
             if op == "symsg" and has_fc and ph.force_constants.shape[0] != ph.force_constants.shape[1]:
                 continue  # space-group symmetriser is defined for the full layout only
@@ -216,6 +218,18 @@ class Run:
         elif op == "gen":
             phx.quiet(ph.generate_displacements, distance=0.02)
             _ = ph.supercells_with_displacements
+        elif op == "genT":
+            # finite-temperature random displacements from the CURRENT phonons (fixed seed: a fresh object gives the same ones)
+            phx.quiet(ph.generate_displacements, number_of_snapshots=2, temperature=300.0, random_seed=7, cutoff_frequency=0.01)
+            self.last_genT = True
+        elif op == "nacE":
+            # the caller edits the dictionary it got from the getter and assigns the same object again
+            d = ph.nac_params
+            d["born"] = np.array(d["born"], dtype="double") * 0.5
+            d["method"] = "wang" if d.get("method") == "gonze" else "gonze"
+            if d["method"] == "gonze":
+                d["G_cutoff"] = 0.75
+            ph.nac_params = d
         elif op == "sym1":
             phx.quiet(ph.symmetrize_force_constants, level=1, show_drift=False)
         elif op == "symsg":
@@ -236,6 +250,10 @@ class Run:
         elif op == "qQd":
             # a query with a symmetry-breaking direction (it may leave the direction behind)
             ph.run_qpoints(QS, with_group_velocities=True, nac_q_direction=[1.0, 0.0, 0.0])
+        elif op == "qMT":
+            # mesh + thermal properties with the rarely used option that folds imaginary modes
+            ph.run_mesh([2, 2, 2])
+            ph.run_thermal_properties(t_min=0, t_max=300, t_step=150, pretend_real=True)
         elif op == "qM":
             ph.run_mesh([2, 2, 2], with_group_velocities=True)
         elif op == "qB":
@@ -264,14 +282,17 @@ def canon(run):
     if ds is None:
         add(None)
     else:
-        add([(d["number"], np.round(d["displacement"], 9).tobytes(), None if "forces" not in d else np.round(d["forces"], 9).tobytes()) for d in ds["first_atoms"]])
+        if "first_atoms" in ds:
+            add([(d["number"], np.round(d["displacement"], 9).tobytes(), None if "forces" not in d else np.round(d["forces"], 9).tobytes()) for d in ds["first_atoms"]])
+        else:
+            add(("type2", np.round(np.asarray(ds["displacements"]), 7).tobytes(), "forces" in ds))
     dm = getattr(ph, "_dynamical_matrix", None)
     add(type(dm).__name__)
     if dm is not None and hasattr(dm, "_Gonze_force_constants"):
         add(dm._Gonze_force_constants is not None)
         dn = dm.nac_params if hasattr(dm, "nac_params") else None
         add(None if dn is None else np.round(dn["born"], 8).tobytes())
-    for attr in ("_mesh", "_band_structure", "_qpoints", "_group_velocity", "_supercells_with_displacements", "_pdos", "_total_dos", "_thermal_properties"):
+    for attr in ("_mesh", "_band_structure", "_qpoints", "_group_velocity", "_supercells_with_displacements", "_pdos", "_total_dos", "_thermal_properties", "_random_displacements"):
         add(getattr(ph, attr, None) is not None)
     add(len(run.origins) > 0)
     # which arrays of the caller the object currently shares memory with (part of the state of caller + object)
@@ -382,6 +403,41 @@ def run_history(system, seed, hist, check=True):
             fail("setter/masses", "masses getter does not return what was set")
         if "fc" in exp and exp["fc"] is not None and (ph.force_constants.shape != exp["fc"].shape or np.abs(ph.force_constants - exp["fc"]).max() > 1e-12):
             fail("setter/force_constants", "force_constants getter does not return what was set")
+    # (vii) results the object still holds from earlier queries are those of a fresh object asked the same thing
+    if has_fc and getattr(ph, "_mesh", None) is not None:
+        try:
+            fm = np.array(ph.get_mesh_dict()["frequencies"])
+            meshnum = [int(x) for x in ph.mesh.mesh_numbers]
+            fr2 = _fresh(env)
+            fr2.masses = np.array(ph.masses, float).copy()
+            fr2.force_constants = np.array(ph.force_constants, dtype="double", order="C").copy()
+            if ph.nac_params is not None:
+                fr2.nac_params = copy.deepcopy(ph.nac_params)
+            last_mesh = max((i for i, o in enumerate(hist) if o in ("qM", "qMT")), default=-1)
+            if last_mesh >= 0 and not any(o not in QUERIES and o != "copy" for o in hist[last_mesh + 1:]):
+                fr2.run_mesh(meshnum, with_group_velocities=(hist[last_mesh] == "qM"))
+                fw = np.array(fr2.get_mesh_dict()["frequencies"])
+                if fm.shape != fw.shape or np.abs(np.sign(fm) * fm * fm - np.sign(fw) * fw * fw).max() > 1e-9 * max(np.abs(fw).max() ** 2, 1e-12):
+                    fail("stale/mesh-results-changed-by-%s" % next((o for o in reversed(hist[last_mesh:]) if o in QUERIES), "?"),
+                         "the mesh frequencies held by the object differ from run_mesh on a fresh object (a later query wrote into them)")
+        except Exception as e:
+            fail("raised/mesh-dict", "%s: %s" % (type(e).__name__, str(e)[:200]))
+    if has_fc and hist and hist[-1] == "genT":
+        try:
+            from vtk import phx
+
+            fr3 = _fresh(env)
+            fr3.masses = np.array(ph.masses, float).copy()
+            fr3.force_constants = np.array(ph.force_constants, dtype="double", order="C").copy()
+            if ph.nac_params is not None:
+                fr3.nac_params = copy.deepcopy(ph.nac_params)
+            phx.quiet(fr3.generate_displacements, number_of_snapshots=2, temperature=300.0, random_seed=7, cutoff_frequency=0.01)
+            a, b = np.array(ph.dataset["displacements"]), np.array(fr3.dataset["displacements"])
+            if a.shape != b.shape or np.abs(a - b).max() > 1e-7 * max(np.abs(b).max(), 1e-12):
+                fail("stale/random-displacements", "finite-temperature displacements (fixed seed) differ from those of a fresh object with the same fc/NAC/masses by %.3g (rel)" % (
+                    np.abs(a - b).max() / max(np.abs(b).max(), 1e-12) if a.shape == b.shape else -1))
+        except Exception as e:
+            fail("raised/random-displacements", "%s: %s" % (type(e).__name__, str(e)[:200]))
     # (vi) the masses of the three cells describe the same atoms (unit-cell / supercell atom -> primitive atom by geometry)
     try:
         bad = _mass_maps(ph)
